@@ -462,3 +462,54 @@ Qed.
 Lemma handover_complete o : ho_t0 (handover_of o) = true /\ ho_unit (handover_of o) = true /\
   (ho_rate (handover_of o) = true \/ (ho_rate (handover_of o) = false /\ ho_interval (handover_of o) = true)).
 Proof. destruct o; simpl; auto. Qed.
+
+(* ================================================================== re-use histories *)
+(* Whatever happened before (any world w), a read of a SpectralAnalyzer hands the algorithm layer the
+   rate of the analyzer's CURRENT input. *)
+Lemma spectral_read_current w a r an :
+  nth_error (w_ans w) a = Some an -> an_cls an = ASpectral -> attr_of ASpectral r = true ->
+  snd (step w (OpRead a r)) = Some (s_fs (an_input an), ax_dt (s_axis (an_input an))).
+Proof.
+  intros Ha Hc Hr. simpl. rewrite Ha, Hc, Hr. destruct r; try discriminate; reflexivity.
+Qed.
+
+Lemma set_nth_same {A} (l : list A) i x y : nth_error l i = Some y -> nth_error (set_nth l i x) i = Some x.
+Proof.
+  revert i; induction l as [|z l IH]; intros [|i] H; simpl in *; try discriminate; auto.
+Qed.
+Lemma set_nth_other {A} (l : list A) i j x : i <> j -> nth_error (set_nth l i x) j = nth_error l j.
+Proof.
+  revert i j; induction l as [|z l IH]; intros [|i] [|j] H; simpl; auto; try congruence.
+Qed.
+
+(* the current input is the one given to the last set_input (or to the constructor) *)
+Lemma set_input_sets w a s an : nth_error (w_ans w) a = Some an ->
+  nth_error (w_ans (fst (step w (OpSetInput a s)))) a = Some (mk_an (an_cls an) (an_dict an) s).
+Proof. intros Ha. simpl. rewrite Ha. simpl. eapply set_nth_same, Ha. Qed.
+
+Lemma step_keeps_inputs w o b an : nth_error (w_ans w) b = Some an ->
+  (forall s, o <> OpSetInput b s) ->
+  nth_error (w_ans (fst (step w o))) b = Some an.
+Proof.
+  intros Hb Hne. destruct o as [fs|c [d|] s|a s|a r]; simpl.
+  - exact Hb.
+  - rewrite nth_error_app1; [exact Hb|]. apply nth_error_Some. congruence.
+  - rewrite nth_error_app1; [exact Hb|]. apply nth_error_Some. congruence.
+  - destruct (nth_error (w_ans w) a) as [an'|] eqn:Ea; simpl; [|exact Hb].
+    rewrite set_nth_other; [exact Hb|]. intros ->. apply (Hne s). reflexivity.
+  - destruct (nth_error (w_ans w) a) as [an'|]; [|exact Hb].
+    destruct (attr_of (an_cls an') r); [|exact Hb].
+    destruct (an_cls an'), r; simpl; try exact Hb;
+      destruct (nth_error (w_dicts w) (an_dict an')) as [[f|]|]; simpl; exact Hb.
+Qed.
+
+(* so: construct on A, (read anything, build other analyzers on shared dicts, ...), set_input B, then
+   read: a SpectralAnalyzer uses B's rate *)
+Lemma spectral_after_set_input w a sB an r :
+  nth_error (w_ans w) a = Some an -> an_cls an = ASpectral -> attr_of ASpectral r = true ->
+  snd (step (fst (step w (OpSetInput a sB))) (OpRead a r)) = Some (s_fs sB, ax_dt (s_axis sB)).
+Proof.
+  intros Ha Hc Hr.
+  rewrite (spectral_read_current _ a r (mk_an (an_cls an) (an_dict an) sB)); auto.
+  apply set_input_sets, Ha.
+Qed.
